@@ -159,6 +159,9 @@ def oracle_c11(lines: list[str], answers: list[str]) -> list[tuple[str, str]]:
             else:
                 if st == "final":
                     out.append(("instance-finalized-twice", f"op {n}: #{ser}"))
+                if st == "new":
+                    # pairing: the finalize callback of an instance whose initialize callback never ran
+                    out.append(("finalized-without-initialize", f"op {n}: #{ser} finalized, never initialized"))
                 state[ser] = "final"
         if len(execs) > 1 and ln == "tick":
             for a1, a2 in itertools.combinations(sorted(set(execs)), 2):
